@@ -804,6 +804,35 @@ func checkC06(c *Ctx) {
 					}
 				}
 			}
+			// optional white space around the commas of a list header is legal ("a , b"): the element
+			// is trimmed before it is hashed, as utils.GetClientIP does for the rate limiter
+			if first && len(bad) == 0 {
+				trimmed := false
+				for f := range seen {
+					for _, ci := range callsIn(f) {
+						call, isCall := ci.(*ssa.Call)
+						if !isCall || CalleeName(ci) != "strings.TrimSpace" {
+							continue
+						}
+						if c.flowsFrom(call.Call.Args[0], func(v ssa.Value) bool {
+							cl, ok := v.(*ssa.Call)
+							if !ok {
+								return false
+							}
+							switch CalleeName(cl) {
+							case "strings.Split", "strings.SplitN", "strings.Cut":
+								return true
+							}
+							return false
+						}) {
+							trimmed = true
+						}
+					}
+				}
+				if !trimmed {
+					bad = append(bad, "the first element of X-Forwarded-For is hashed untrimmed: \"203.0.113.7 , 10.0.0.1\" (white space before the comma is legal in a list header) and \"203.0.113.7\" name the same client but hash to different backends")
+				}
+			}
 			if !first && len(bad) == 0 {
 				bad = append(bad, "X-Forwarded-For is hashed without being reduced to its first element: the same client maps to different backends depending on the proxies its request passed")
 			}
